@@ -73,7 +73,7 @@ class Core:
     """one generated Lean file: a set of methods reachable from each other"""
 
     def __init__(self, repo, name, sources, ignore=(), effects=None, observers=(), pure=None, records=None, links=None,
-                 consts=None, attr_effects=(), doc="", heap=False, opaque=None, oracles=None, ignore_targets=(), ignore_calls=(), observers_args=(), lists=None, observe_text=(), bases=None, opaque_text=None, list_calls=None):
+                 consts=None, attr_effects=(), doc="", heap=False, opaque=None, oracles=None, ignore_targets=(), ignore_calls=(), observers_args=(), lists=None, observe_text=(), bases=None, opaque_text=None, list_calls=None, dicts=()):
         self.repo = repo
         self.name = name
         self.sources = sources  # list of (relative file, class name, [method names])
@@ -107,6 +107,9 @@ class Core:
         self.opaque_text = opaque_text or {}
         # calls whose result is an object list of the world (`paths = self.get_identified_paths_in(npn)`): dotted name -> list name
         self.list_calls = list_calls or {}
+        # attributes that hold a dict with constant keys: `self.metadata["id"]` is the environment key `self.metadata[id]` (an absent key
+        # is the value `KeyError`, which is what subscripting it raises), `"id" in self.metadata` asks whether the key is there
+        self.dicts = set(dicts)
         self.loopn = 0
         self.P = "Py.H." if heap else "Py."          # statement combinators
         self.EV = " env" if heap else ""             # the environment argument of the combinators
@@ -347,6 +350,11 @@ class Core:
         if isinstance(e, ast.Compare):
             ops = {ast.Eq: "Py.eq", ast.NotEq: "Py.ne", ast.Lt: "Py.lt", ast.LtE: "Py.le", ast.Gt: "Py.gt", ast.GtE: "Py.ge",
                    ast.Is: "Py.is_", ast.IsNot: "Py.isnot", ast.In: "Py.in_", ast.NotIn: "Py.notin"}
+            if len(e.ops) == 1 and isinstance(e.ops[0], (ast.In, ast.NotIn)) and dotted(e.comparators[0]) in self.dicts \
+                    and isinstance(e.left, ast.Constant) and isinstance(e.left.value, str):
+                d = dotted(e.comparators[0])
+                key = f"(env {lean_str(prefix + d[4:] + '[' + e.left.value + ']')})"
+                return f"(Py.haskey {key})" if isinstance(e.ops[0], ast.In) else f"(Py.not_ (Py.haskey {key}))"
             operands = [e.left] + list(e.comparators)
             terms = [self.expr(x, ctx) for x in operands]
             pieces = []
@@ -370,6 +378,9 @@ class Core:
             if isinstance(e.value, ast.Name) and e.value.id in ctx["records"] and isinstance(e.slice, ast.Constant) \
                     and isinstance(e.slice.value, str):
                 return f"(r_{e.value.id} {lean_str(e.slice.value)})"
+            if dotted(e.value) in self.dicts and isinstance(e.slice, ast.Constant) and isinstance(e.slice.value, str):
+                d = dotted(e.value)
+                return f"(env {lean_str(prefix + d[4:] + '[' + e.slice.value + ']')})"
             if isinstance(e.value, ast.Name) and e.value.id in ctx.get("elems", {}) and isinstance(e.slice, ast.Constant) \
                     and isinstance(e.slice.value, int):
                 full, _, idx = ctx["elems"][e.value.id]
